@@ -4,8 +4,8 @@ from ..sexp import S, unS, dump
 from . import c08
 
 SCHEMES = ['https', 'http', 'file', 'git+https', 'git+ssh', 'hg+static-http', 'svn+svn', 'bzr+lp', 'ftp', 'a+b', 'C', 'x-y.z', 's3', 'HTTPS']
-URL_TAILS = ['//h/p', '//h/p.whl', '///a/b', '//localhost/abs/dir/p.whl', '//localhost', '//u:pw@h:8080/p?q=1#f', '//h/${HOME}/p', 'p', '//h/[x]/p', '//h/p@v1', '\\path', '//h/a%20b']
-PATHS = ['proj/é', './résumé', 'é/p', './p', '../up/p.whl', '/abs/p', '/abs/dir/', 'rel/p', 'rel\\p', '.hidden', '.', '..', './a b', '\\\\unc\\p', '/p.tar.gz', './${HOME}/p', 'a/b@c', './p#frag', '~/p', 'dir.d/p']
+URL_TAILS = ['//h/p', '//h/p.whl', '///a/b', '//localhost/abs/dir/p.whl', '//localhost', '//u:pw@h:8080/p?q=1#f', '//h/${HOME}/p', 'p', '//h/[x]/p', '//h/p@v1', '\\path', '//h/a%20b', '///home/x/../dist/pkg-1.0.tar.gz', '//localhost/opt/a/b/../../pkg-1.0.zip']
+PATHS = ['/srv/wheels/../cache/p-1.0.whl', '/home/x/project/../shared/editable', '/a/./b/p.whl', 'proj/é', './résumé', 'é/p', './p', '../up/p.whl', '/abs/p', '/abs/dir/', 'rel/p', 'rel\\p', '.hidden', '.', '..', './a b', '\\\\unc\\p', '/p.tar.gz', './${HOME}/p', 'a/b@c', './p#frag', '~/p', 'dir.d/p']
 NAMES = ['foo', 'requests-2.26.0', 'Foo_Bar', 'a', 'x.y', 'pkg-1.0-py3-none-any', 'torch-2.1.0+cu118-cp310-cp310-linux_x86_64', 'pkg-1.0+local', 'résumé-1.0', 'päckage', 'größe-2.0', 'パッケージ-1.0']
 EXTS = ['.whl', '.tbz', '.txz', '.tlz', '.zip', '.tgz', '.tar', '.tar.bz2', '.tar.xz', '.tar.lz', '.tar.lzma', '.tar.gz']
 NON_EXTS = ['.gz', '.txt', '.tar.txt', '.whl.txt', '', '.egg', '.bz2']
@@ -37,7 +37,7 @@ def run(ctx):
             if '+' not in n and n.isascii():          # the negative control needs a valid package name
                 cases.append(('plain-name', n + e))
     if quick:
-        keep = [c for c in cases if c[0] != 'url' or c[1].startswith('file://localhost') or c[1].startswith('C:')] + ctx.rng.sample([c for c in cases if c[0] == 'url'], 60)
+        keep = [c for c in cases if c[0] != 'url' or c[1].startswith('file://localhost') or c[1].startswith('C:') or '/../' in c[1]] + ctx.rng.sample([c for c in cases if c[0] == 'url'], 60)
         cases = keep
     for ext in (False, True):
         h = build.harness(ext=ext)
@@ -115,8 +115,17 @@ def scheme_wf(s):
 def unnamed_case(ctx, sess, keys, rm, cls, base, suf, wd):
     text = base + suf
     ctx.evaluations += 1
+    with_wd = None
     for use_wd in (True, False):
         r = sess.ask(['unnamed', S(wd) if use_wd else 'none', S(text)])
+        if use_wd:
+            with_wd = r
+        elif r[0] == 'ok' and with_wd is not None and with_wd[0] == 'ok' and (cls == 'url' or base.startswith('/')) and '${' not in base:
+            # an absolute path / a URL does not depend on the working directory: parse and from_str give the same requirement
+            ctx.oracle_cases += 1
+            if [dump(x) for x in r[1:4]] != [dump(x) for x in with_wd[1:4]]:
+                ctx.failure('UnnamedRequirement::parse (with a working directory) and from_str disagree on the absolute %r: %s vs %s'
+                            % (text, ' '.join(dump(x) for x in with_wd[1:4])[:200], ' '.join(dump(x) for x in r[1:4])[:200]), {'entry': 'UnnamedRequirement::parse / from_str', 'input': text})
         io = reqmodel.outcome(r)
         ctx.oracle_cases += 1
         entry = 'UnnamedRequirement::parse' if use_wd else 'UnnamedRequirement::from_str'
@@ -164,3 +173,12 @@ def unnamed_case(ctx, sess, keys, rm, cls, base, suf, wd):
                 ctx.failure('%s(%r): the marker is not MarkerTree::from_str(%r)' % (entry, text, mtext), {'entry': entry, 'input': text})
         if use_wd:
             c08.roundtrip(ctx, sess, keys, text, True, wd, unnamed=True)
+            # the rendered text names the resolved URL: it reads back to the same requirement from any working directory, and without one
+            shown = unS(r[7])
+            for other in (S('/elsewhere/dir'), 'none'):
+                r2 = sess.ask(['unnamed', other, S(shown)])
+                ctx.oracle_cases += 1
+                if r2[0] != 'ok' or dump(r2[1]) != dump(r[1]) or dump(r2[3]) != dump(r[3]) or dump(r2[5]) != dump(r[5]) or dump(r2[7]) != dump(r[7]):
+                    ctx.failure('the rendered text %r of UnnamedRequirement::parse(%r, %r) does not read back to the same requirement %s: %s'
+                                % (shown, text, wd, 'without a working directory' if other == 'none' else 'from another working directory', dump(r2)[:200]),
+                                {'entry': 'UnnamedRequirement Display -> parse', 'input': text})
